@@ -31,9 +31,11 @@ def apply_patch(d, patch):
         raise RuntimeError('patch failed: ' + r.stdout + r.stderr)
 
 
-def run_check(d, prop, tier='quick'):
+def run_check(d, prop, tier='quick', target=None):
     evdir = tempfile.mkdtemp(prefix='verif-ev-')
     env = dict(os.environ, VERIF_REPO=d, VERIF_EVIDENCE_DIR=evdir)
+    if target:
+        env['VERIF_TARGET'] = target
     r = subprocess.run([sys.executable, os.path.join(VERIF, 'run.py'), prop, '--tier', tier],
                        env=env, capture_output=True, text=True)
     keys = []
@@ -42,6 +44,47 @@ def run_check(d, prop, tier='quick'):
         keys = [v['key'] for v in json.load(open(vp))]
     shutil.rmtree(evdir, ignore_errors=True)
     return r.returncode, keys, r.stdout + r.stderr
+
+
+def parallel_map(fn, items, jobs):
+    """Run fn(item, target) over items with `jobs` workers; every worker has its own cargo target
+    directory (a copy of .cache/target, made on first use) so that the MIR dumps do not serialise on
+    cargo's build lock.  Yields results in completion order."""
+    import queue
+    from concurrent.futures import ThreadPoolExecutor, as_completed
+    if jobs <= 1:
+        for it in items:
+            yield fn(it, None)
+        return
+    cache = os.environ.get('VERIF_CACHE', os.path.join(VERIF, '.cache'))
+    base = os.path.join(cache, 'target')
+    q = queue.Queue()
+    for i in range(jobs):
+        t = os.path.join(cache, 'target-w%d' % i)
+        if not os.path.isdir(t) and os.path.isdir(base):
+            # copy aside and rename: another process may be preparing the same worker directory
+            tmp = '%s.tmp%d' % (t, os.getpid())
+            subprocess.run(['cp', '-a', base, tmp], check=True)
+            try:
+                os.rename(tmp, t)
+            except OSError:
+                shutil.rmtree(tmp, ignore_errors=True)
+        q.put(t)
+
+    def work(it):
+        t = q.get()
+        try:
+            return fn(it, t)
+        finally:
+            q.put(t)
+    with ThreadPoolExecutor(max_workers=jobs) as ex:
+        futs = [ex.submit(work, it) for it in items]
+        for f in as_completed(futs):
+            yield f.result()
+
+
+def jobs_arg(args, default=1):
+    return int(args[args.index('--jobs') + 1]) if '--jobs' in args else default
 
 
 def main():
